@@ -605,6 +605,8 @@ def full_edge_walk(ctx, body, bb=None):
         return True, ""
     if body.kind != "closure":
         return False, "degree increment is not inside a per-edge closure"
+    if bb is not None and cond_guards(body, bb):
+        return False, "degree increment is conditional inside the per-edge closure (some edges are not counted)"
     uses = fl.closure_uses(body)
     if len(uses) != 1 or callee_path(uses[0][2]) != "std::iter::Iterator::for_each":
         return False, "degree increment is not driven by for_each over every edge of the node (%s)" % [callee_path(u[2]) for u in uses]
@@ -2051,6 +2053,31 @@ def monotone_of_node_count(ctx, body, e, depth=0):
     return False, None
 
 
+def capacity_lower_bound(e):
+    """least value of a capacity expression over all graphs (node_count >= 0); None = unknown"""
+    e = strip_refs(e)
+    if e.kind == "call" and e[1] in NODE_COUNT_FNS:
+        return 0
+    if e.kind == "const":
+        v = const_val(e)
+        return v if isinstance(v, int) else None
+    if e.kind == "call" and e[1] in ("std::cmp::max", "std::cmp::Ord::max") and len(e[2]) == 2:
+        ls = [capacity_lower_bound(x) for x in e[2]]
+        ks = [x for x in ls if x is not None]
+        return max(ks) if ks else None
+    if e.kind == "call" and e[1] in ("std::cmp::min", "std::cmp::Ord::min") and len(e[2]) == 2:
+        ls = [capacity_lower_bound(x) for x in e[2]]
+        return None if None in ls else min(ls)
+    if e.kind == "binop" and e[1] in ("Add", "Mul", "AddWithOverflow", "MulWithOverflow"):
+        la, lb = capacity_lower_bound(e[2]), capacity_lower_bound(e[3])
+        if la is None or lb is None:
+            return None
+        return la + lb if e[1].startswith("Add") else la * lb
+    if e.kind == "field" and e[2] == 0:
+        return capacity_lower_bound(e[1])       # (a + b).0 of a checked add
+    return None
+
+
 def S6(ctx, rule="S6", roles_filter=None):
     """roles_filter: restrict to channels whose capacity the property depends on"""
     m, fb = ctx.model, ctx.fb
@@ -2068,6 +2095,11 @@ def S6(ctx, rule="S6", roles_filter=None):
             ctx.unverifiable(rule, key, where, "capacity of the %s channel not found (allocated through a wrapper)" % role)
             continue
         e = expr_operand(b, capop)
+        lb = capacity_lower_bound(e)
+        ctx.check(lb is not None and lb >= 1, rule, key + "|nonzero", where,
+                  "%s channel capacity `%s` is at least %s for every graph (tokio's mpsc::channel panics on capacity 0)" % (role, fmt_expr(e, b), lb),
+                  "%s channel capacity `%s` %s: mpsc::channel(0) panics, so a run on the empty graph panics instead of completing" % (
+                      role, fmt_expr(e, b), "is 0 for the empty graph" if lb == 0 else "has no established lower bound >= 1"))
         ok, g = monotone_of_node_count(ctx, b, e)
         if ok:
             gs = sources_of_expr(ctx, b, g)
